@@ -74,6 +74,8 @@ def handlers : List (String × (Json → Except String Json)) := [
   ("C01.add_dia", Qv.Drv.C01.addDiaJ),
   ("C01.inner_dia", Qv.Drv.C01.innerDiaJ),
   ("C01.isherm_dia", Qv.Drv.C01.ishermDiaJ),
+  ("C01.trace_dia", Qv.Drv.C01.traceDiaJ),
+  ("C01.expect_dia", Qv.Drv.C01.expectDiaJ),
   ("C01.inner_op_dia", Qv.Drv.C01.innerOpDiaJ),
   ("C01.dia_of_dense", Qv.Drv.C01.diaOfDenseJ)
 ]
